@@ -23,6 +23,7 @@ THEOREMS = [
     "Mesa.Viz.C20_draw_ok_one_marker_per_agent",
     "Mesa.Viz.C20_V7_some_agents_optional_drawn",
     "Mesa.Viz.C20_empty_space_draws_nothing",
+    "Mesa.Viz.C20_default_size_defined",
     "Mesa.Viz.C20_draw_kwargs",
     "Mesa.Viz.C20_draw_kwargs_apply_to_every_marker",
     "Mesa.Viz.C20_hex_marker_at_hexagon_centre",
@@ -73,7 +74,7 @@ RULE = ("40% space scenarios: one of 12 space classes (4 mesa.space grids, 3 dis
         "agents never placed, a pool of 0-4 portrayal dict *objects* shared between agents (keys color/size/marker/zorder, colours as names and as RGB(A) tuples — none / all / mixed —, the optional "
         "alpha/edgecolors/linewidths under an all/none/some policy, unsupported keys), interleaved place/move/remove/dict-rewrite/"
         "re-portray ops and observations collect_agent_data / draw_space (Agg; also with plotting keywords alpha / edgecolors / linewidths) / Altair _draw_grid (rows, encoded channels, x/y type, tooltip fields, default "
-        "mark size) / the solara components SpaceMatplotlib and SpaceAltair with the portrayal and with their default portrayals / heap dump / property layers "
+        "mark size) / the solara components SpaceMatplotlib and SpaceAltair with the portrayal and with their default portrayals / heap dump / the default marker size (all agents drawn with an empty portrayal) / property layers "
         "(1-3 named layers, requests of 1-4 entries in any order incl. names the space has no layer for; colour or colormap or neither; "
         "alpha absent / 25 / 50 / 100 %; range automatic, one-sided, explicit incl. without extent, cutting the data and inverted; colour bar "
         "absent / on / off; constant layers; float and int layers; drawn repeatedly; on non-grid classes), including observations of the space without agents; "
